@@ -82,8 +82,9 @@ std::vector<SimOp> genSimHistory(sim::Rng& g, const std::string& property) {
     int n = 0;
     std::vector<bool> measured;
     int len = g.range(3, 40);
-    static const double angles[] = {0, M_PI / 2, -M_PI / 2, M_PI, -M_PI, 2 * M_PI, -2 * M_PI, 1e-9, 1e3, 0.3, 1.1, 2.7, -4.4, 5.9, M_PI / 3, 4 * M_PI, 1e-4, 3e-4, 5e-5, -2e-4, 1e-3, 6e-4};
-    int maxQ = g.chance(0.08) ? 12 : 7;   // a few large registers (chunked loops, strides above bit 10)
+    static const double angles[] = {0, M_PI / 2, -M_PI / 2, M_PI, -M_PI, 2 * M_PI, -2 * M_PI, 1e-9, 1e3, 0.3, 1.1, 2.7, -4.4, 5.9, M_PI / 3, 4 * M_PI, 1e-4, 3e-4, 5e-5, -2e-4, 1e-3, 6e-4, 1e-5, 3e-6};
+    int maxQ = g.chance(0.08) ? 12 : 7;
+    if (g.chance(0.002)) { maxQ = 17; len = std::min(len, 22); }   // registers large enough for size-dependent code paths   // a few large registers (chunked loops, strides above bit 10)
     double pReset = property == "C04" ? 0.25 : 0.1;
     double pMeasure = property == "C02" ? 0.25 : 0.12;
     for (int i = 0; i < len; ++i) {
@@ -102,6 +103,7 @@ std::vector<SimOp> genSimHistory(sim::Rng& g, const std::string& property) {
         if (u < 0.12 + pReset) {
             o.kind = 4;
             o.q = (int)g.below((uint64_t)n);
+            if (n > 10 && g.chance(0.5)) { static const int hot[] = {1, 10, 11, 0, 12}; int c = hot[g.below(5)]; o.q = c < n ? c : n - 1; }   // index pairs like 10 then 1
             o.r64 = g.next();
             if (g.chance(0.2)) o.drawKind = 1 + (int)g.below(4);
             measured[(size_t)o.q] = false;
@@ -126,7 +128,7 @@ std::vector<SimOp> genSimHistory(sim::Rng& g, const std::string& property) {
             o.kind = 1;
             o.q = act[g.below(act.size())];
             o.gate = g.chance(0.4) ? (g.chance(0.5) ? 0 : 5) : (int)g.below(7);
-            o.angle = g.chance(0.7) ? angles[g.below(22)] : (g.unit() * 14 - 7);
+            o.angle = g.chance(0.7) ? angles[g.below(24)] : (g.unit() * 14 - 7);
             ops.push_back(o);
         }
     }
@@ -787,6 +789,30 @@ ProgOutcome runProgram(const qh::Plan& plan, const std::string& property, uint64
                         }
                     }
                 }
+            }
+        }
+        // C02: the tracked outcome recorded when main's scope ends agrees with the last measurements
+        if (!pr.desync && R.status == 0 && pr.findings.empty()) {
+            std::map<std::string, std::string> want;
+            auto& I = pr.interp;
+            for (size_t id = 0; id < I.decls.size(); ++id) {
+                const qh::DeclInfo& d = I.decls[id];
+                if (!d.tracked || d.kind > 1) continue;
+                std::string out;
+                bool all = true;
+                for (int q : I.declIdx[id]) { int lm = I.lastMeas[(size_t)q]; if (lm < 0) all = false; else out.push_back(lm ? '1' : '0'); }
+                if (!all) out = "?";
+                want[std::string(d.kind == 0 ? "qubit " : "qubit[] ") + declName(d, id)] = out;
+            }
+            std::map<std::string, std::string> got;
+            bool multi = false;
+            for (auto& a : ev.trackedCounts())
+                for (auto& b : a.second) { if (b.second != 1 || got.count(a.first)) multi = true; got[a.first] = b.first; }
+            if (multi || got != want) {
+                std::string gs, ws;
+                for (auto& kv : got) gs += kv.first + "=" + kv.second + " ";
+                for (auto& kv : want) ws += kv.first + "=" + kv.second + " ";
+                push("tracked_outcome_differs_from_measurements", "C02", "recorded {" + gs + "} but the last measurements give {" + ws + "}");
             }
         }
         // C02: echoed bits equal the model's outcomes
